@@ -8,6 +8,7 @@ import Holpy.C20.ProofsParseCond
 import Holpy.C20.ProofsParseWf
 import Holpy.C20.ProofsLex4
 import Holpy.C20.ProofsLexCom
+import Holpy.C20.ProofsVcWf
 /-
 C20 — property theorems (helper lemmas: Proofs.lean, ProofsSem.lean, ProofsParse.lean).
 `Exec` is the big-step semantics of Proofs.lean, `holds s e` is `evalE s e = some (.bool true)`,
@@ -211,6 +212,27 @@ theorem print_parse_sem (e : Expr) (hw : wfC e = true) (hn : namesOK e = true) :
 /-- non-vacuity with a loop: every VC of `Ex.prog` is a `wfC` condition over identifiers, so its shown
 string parses back to it. -/
 example : ∀ v ∈ vcsOf Ex.inv Ex.prog Ex.post, wfC v = true ∧ namesOK v = true := by decide
+
+/-- Every condition `get_vcs` produces for a program of the assertion language (`okCom`: guards and
+invariants are `wfC` conditions, assigned expressions `wfA`, all over identifiers; decidable, evaluated by
+the driver on every generated case) is again such a condition. -/
+theorem vcs_in_language (p q : Expr) (c : Com) (hc : okCom c = true) (hp : okE p = true) (hq : okE q = true) :
+    ∀ v ∈ vcsOf p c q, okE v = true :=
+  vcs_ok c [p] q hc hq (by intro x hx; simp at hx; subst hx; exact hp)
+
+example : okCom Ex.prog = true ∧ okE Ex.inv = true ∧ okE Ex.post = true := by decide
+
+/-- Hence every verification condition SHOWN to the user, when parsed again from its string, has in every
+state the value of the condition computed. -/
+theorem vcs_shown_sem (p q : Expr) (c : Com) (hc : okCom c = true) (hp : okE p = true) (hq : okE q = true) :
+    ∀ v ∈ vcsOf p c q, ∃ v', parseCond (pp v) = some v' ∧ ∀ s, evalE s v' = evalE s v := by
+  intro v hv
+  have h := vcs_in_language p q c hc hp hq v hv
+  simp only [okE, Bool.and_eq_true] at h
+  exact print_parse_sem v h.1 h.2
+
+example : ∃ v, v ∈ vcsOf Ex.inv Ex.prog Ex.post ∧ parseCond (pp v) = some v :=
+  ⟨implies Ex.inv Ex.inv, by decide, print_parse_string _ (by decide) (by decide)⟩
 
 /-- The lexer reads a printed program (`print_com`, lines joined by newlines) back as exactly its tokens
 `comToks c`, for every program whose names are identifiers (`nameOK`) and whose operators have a concrete
